@@ -15,7 +15,7 @@ From Low Require Import Lib.MachInt Lib.Bits Lib.BitSeq Lib.Bytes Lib.BitsExtra_
 Import ListNotations.
 Open Scope Z_scope.
 
-Ltac Zify.zify_post_hook ::= Z.div_mod_to_equations.
+Local Ltac Zify.zify_post_hook ::= Z.div_mod_to_equations.
 
 (** * small list facts (not in the 8.16 library under these names) *)
 
@@ -342,6 +342,7 @@ Proof.
       intros n Hn. rewrite Z.bits_0. symmetry. apply mbit_outside. lia.
   - rewrite gather_window by (assumption || lia).
     rewrite MaskAt_ok by lia.
+    rewrite (i32_id (40 - (from + w - 8 * (from / 8)))) by lia.
     destruct (Z.ltb_spec (40 - (from + w - 8 * (from / 8))) 0) as [Hneg|_]; [lia|].
     rewrite shr64_div by lia. rewrite land_mask by lia.
     f_equal. f_equal.
@@ -379,7 +380,7 @@ Qed.
 
 Lemma NewPathChk_NewPath v k h : 0 <= k <= h -> h <= 64 -> NewPathChk v k h = Some (NewPath v k h).
 Proof.
-  intros Hk Hh. unfold NewPathChk, NewPath. rewrite MaskAt_ok by lia.
+  intros Hk Hh. unfold NewPathChk, NewPath. rewrite MaskAt_ok by lia. rewrite i32_id by lia.
   destruct (Z.ltb_spec (h - k) 0); [lia|reflexivity].
 Qed.
 
